@@ -103,7 +103,10 @@ void Runner::on_poll(Thread *t, const pollfd_sim *, size_t, int timeout) {
   } else return;
   if (bound < 0) return;
   if (cx.polls == 1) cx.limit_ns = K->now_ns + bound * 1000000 + 1000000 + (K->now_ns - octx_t0(t));
-  if (timeout < 0 || timeout > bound)
+  // time that passed inside the call before it blocks (pre-emption, drawn jitter between the library's clock readings) is not
+  // the library's doing: deadlines closer together than that count as tied
+  int64_t slack = cx.polls == 1 ? (K->now_ns - octx_t0(t)) / 1000000 + 1 : 0;
+  if (timeout < 0 || timeout > bound + slack)
     viol("C08", "blocks-past-bound", what,
          fmt("the blocking poll was issued with timeout %d ms although the call may wait at most %lld ms (timeout/earliest deadline)", timeout, (long long) bound), t->op);
   else if (cx.polls > 1 && op.kind != OP_DRAIN && K->now_ns + (int64_t) timeout * 1000000 > cx.limit_ns + 1000000)
